@@ -110,7 +110,20 @@ def c17(cx):
              "error paths (simple, parser, extended) and direct ErrorCode calls including nil.")
 
 
-PROPS = {"C05": c05, "C06": c06, "C07": c07, "C08": c08, "C17": c17}
+def c13(cx):
+    return conn_family(
+        cx, "MC_C13", "C13", 500, 10000,
+        consts_thorough={"MaxCopy": 5},
+        rule="TLC explores every sequence of up to MaxCopy client messages over {CopyData x2 payloads, CopyDone, CopyFail, "
+             "Flush, Sync, simple Query, unknown message} following a CopyInResponse, for handlers that read to the end "
+             "(propagating a failed read), stop after one chunk and complete, or stop and fail, over 1-2 columns and both "
+             "formats (and COPY on a column-less statement); transition cover executed on the real server; TLC validates "
+             "CopyInResponse contents, every Read result class and chunk digest in order, exactly one ErrorResponse and "
+             "ReadyForQuery for an aborted cycle, silence for stray COPY messages. Random driver: payloads to 20 KiB, "
+             "pipelining, extended-protocol COPY, several rounds per connection.")
+
+
+PROPS = {"C13": c13, "C05": c05, "C06": c06, "C07": c07, "C08": c08, "C17": c17}
 
 
 def replay(cx, path):
